@@ -135,6 +135,11 @@ func KnownNonNilError(v ssa.Value, b *ssa.BasicBlock) bool {
 			}
 		}
 		return len(x.Edges) > 0
+	case *ssa.UnOp:
+		// a sentinel: `var errX = errors.New(...)` of the module, assigned by its initialiser only
+		if g, ok := x.X.(*ssa.Global); ok && x.Op == token.MUL && sentinelError(g) {
+			return true
+		}
 	}
 	if nn, known := ErrKnown(v, b); known && nn {
 		return true
@@ -235,4 +240,46 @@ func ErrKnownAt(e ssa.Value, at ssa.Instruction) (nonnil bool, known bool) {
 		return false, true
 	}
 	return false, false
+}
+
+// sentinelError: a package-level error variable whose only store is its initialiser errors.New(...) / fmt.Errorf(...).
+func sentinelError(g *ssa.Global) bool {
+	if g.Pkg == nil || !IsErrorType(g.Type().Underlying().(*types.Pointer).Elem()) {
+		return false
+	}
+	n := 0
+	good := false
+	for _, mem := range g.Pkg.Members {
+		f, ok := mem.(*ssa.Function)
+		if !ok {
+			continue
+		}
+		fns := append([]*ssa.Function{f}, f.AnonFuncs...)
+		for _, fn := range fns {
+			for _, b := range fn.Blocks {
+				for _, in := range b.Instrs {
+					st, ok := in.(*ssa.Store)
+					if !ok || st.Addr != ssa.Value(g) {
+						continue
+					}
+					n++
+					if c, ok := st.Val.(*ssa.Call); ok && fn.Name() == "init" && fn.Synthetic != "" && (CalleeIs(c, "errors", "New") || CalleeIs(c, "fmt", "Errorf")) {
+						good = true
+					}
+				}
+			}
+		}
+	}
+	// methods and declared init functions are not members: a store there would not be seen, so also require that the
+	// variable's address is used by loads only outside the initialiser
+	if g.Referrers() != nil {
+		for _, ref := range *g.Referrers() {
+			if st, ok := ref.(*ssa.Store); ok && st.Addr == ssa.Value(g) {
+				if !(st.Parent().Name() == "init" && st.Parent().Synthetic != "") {
+					return false
+				}
+			}
+		}
+	}
+	return n == 1 && good
 }
